@@ -2,10 +2,10 @@
 # wave.sh <suffix> <secs> <id...>: for each /tmp/wt2-<id>: confirm, store under /verif/seeded/<id>-<suffix>, run the property's quick check against it.
 SUF="$1"; SECS="$2"; shift; shift
 for ID in "$@"; do
-  WT=/tmp/wt2-$ID
+  WT=${WT_PREFIX:-/tmp/wt2}-$ID
   echo "################ $ID"
   [ -f $WT/SEEDED/patch.diff ] || { echo "no patch"; continue; }
-  sh /verif/tools/confirm_seed.sh $WT 2>&1 | grep -E "rc=|^FAIL|^ok|^---" | head -12
+  sh /verif/tools/confirm_seed.sh $WT 2>&1 | grep -E "rc=|^FAIL|^ok|^---|^demo|non-ok" | head -16
   D=/verif/seeded/$ID-$SUF
   mkdir -p $D && cp $WT/SEEDED/patch.diff $D/ && cp -r $WT/SEEDED/demo $D/ 2>/dev/null; cp $WT/SEEDED/README.md $D/ 2>/dev/null
   sh /verif/tools/trymut.sh $D/patch.diff $SECS $ID 2>&1 | grep -v conda
